@@ -16,7 +16,7 @@
 From Coq Require Import String List NArith Bool Permutation.
 From GrolGen Require Import Gen_IOSites.
 From GrolModel Require Import Sanitize.
-From GrolProofs Require Import Sanitize_proofs IOSites_audit.
+From GrolProofs Require Import Sanitize_proofs Sanitize_prog_proofs IOSites_audit.
 Import ListNotations.
 Local Open Scope N_scope.
 
@@ -140,6 +140,79 @@ Example C17_ex_run :
   /\ registered (mkConfig false false false false) = [].
 Proof. vm_compute. repeat split. Qed.
 
+(* ---------------------------------------------------------------------------------------------------------------
+   Adaptive programs.  A [program] chooses every request from the outcomes of the previous ones (the contents load
+   returned included), which is how a loaded file's own save/load/exec calls come about; [run_prog c ok p n] issues
+   at most n requests.  Request lists are the special case [prog_of_list]. *)
+
+(* "no grol program can READ any file other than ...": non-interference.  Two file systems that agree on the allowed
+   names and differ arbitrarily elsewhere (other names, other contents, more or fewer files) are indistinguishable
+   for every restricted program, however it adapts: same outcomes, same OS calls, and they still agree afterwards. *)
+Theorem C17_read_noninterference : forall (c : config) (ok : str -> bool) (p : program) (n : nat) (f1 f2 : fs),
+  restricted c -> agree_on_allowed c f1 f2 ->
+  snd (run_prog c ok p n (f1, []) []) = snd (run_prog c ok p n (f2, []) [])
+  /\ snd (fst (run_prog c ok p n (f1, []) [])) = snd (fst (run_prog c ok p n (f2, []) []))
+  /\ agree_on_allowed c (fst (fst (run_prog c ok p n (f1, []) []))) (fst (fst (run_prog c ok p n (f2, []) []))).
+Proof. exact prog_noninterference. Qed.
+
+(* "... create or truncate ...": confinement holds for every adaptive program, not only for fixed request lists *)
+Theorem C17_adaptive_confined : forall (c : config) (ok : str -> bool) (p : program) (n : nat) (f f' : fs)
+    (lg : list access) (outs : list outcome),
+  restricted c -> run_prog c ok p n (f, []) [] = ((f', lg), outs) ->
+  (forall a, In a lg -> exists m, file_access a m /\ allowed c m)
+  /\ (forall m, ~ allowed c m -> fs_get f' m = fs_get f m)
+  /\ (forall m, fs_get f m = None -> fs_get f' m <> None -> allowed c m).
+Proof. exact prog_confined. Qed.
+
+Theorem C17_request_lists_are_programs : forall (c : config) (ok : str -> bool) (rs : list request) (st : state),
+  run_prog c ok (prog_of_list rs) (length rs) st [] = run c ok st rs.
+Proof. exact run_prog_of_list. Qed.
+
+(* "whether a name is accepted depends only on the name": exactly the names b and b.gr with b made of letters, digits
+   and underscores are accepted (restricted, not empty-only), both as the file b.gr; and the accepted form is stable *)
+Theorem C17_sanitize_characterisation : forall (c : config) (n f : str),
+  restricted c -> empty_only c = false ->
+  (sanitize c (Some n) = Some f <-> exists b, Forall alnum b /\ f = b ++ dot_gr /\ (n = b \/ n = b ++ dot_gr)).
+Proof. exact sanitize_characterisation. Qed.
+
+Theorem C17_sanitize_idempotent : forall (c : config) (arg : option str) (f : str),
+  restricted c -> empty_only c = false -> sanitize c arg = Some f -> sanitize c (Some f) = Some f.
+Proof. exact sanitize_idempotent. Qed.
+
+(* non-vacuity: a program that tries to read "../s", reads "a", then saves under the NAME it has just read from a.gr.
+   f1 and f2 agree on the allowed names and differ in the decoy "../s" and in an extra file; restricted runs are
+   identical, unrestricted runs are not (so the hypothesis matters). *)
+Definition ex_prog : program := fun hist =>
+  match hist with
+  | [] => Some (RLoad (Some [46;46;47;115]))
+  | [_] => Some (RLoad (Some [97]))
+  | [_; OLoaded _ d] => Some (RSave (Some d) [5])
+  | _ => None
+  end.
+Definition ex_f1 : fs := [([97;46;103;114], [120]); ([46;46;47;115], [7])].
+Definition ex_f2 : fs := [([46;46;47;115], [8]); ([97;46;103;114], [120]); ([110;46;116;120;116], [9])].
+
+Example C17_ex_noninterference :
+  let ok := fun _ : str => true in
+  (forall m, allowedb cfg_restricted m = true -> fs_get ex_f1 m = fs_get ex_f2 m)
+  /\ run_prog cfg_restricted ok ex_prog 9 (ex_f1, []) []
+     = ((ex_f1 ++ [([120;46;103;114], [5])], [AOpen [97;46;103;114]; ACreate [120;46;103;114]]),
+        [ORejected; OLoaded [97;46;103;114] [120]; OSaved [120;46;103;114]])
+  /\ snd (run_prog cfg_restricted ok ex_prog 9 (ex_f2, []) []) = snd (run_prog cfg_restricted ok ex_prog 9 (ex_f1, []) [])
+  /\ snd (run_prog cfg_unrestricted ok ex_prog 9 (ex_f2, []) []) <> snd (run_prog cfg_unrestricted ok ex_prog 9 (ex_f1, []) [])
+  /\ sanitize cfg_restricted (Some [120;46;103;114]) = Some [120;46;103;114].
+Proof.
+  split; [|split; [|split; [|split]]]; try (vm_compute; reflexivity).
+  - intros m Hm. unfold ex_f1, ex_f2. simpl fs_get.
+    destruct (str_eqb [97;46;103;114] m) eqn:Ea.
+    + apply str_eqb_true in Ea. subst m. reflexivity.
+    + destruct (str_eqb [46;46;47;115] m) eqn:Eb.
+      * apply str_eqb_true in Eb. subst m. vm_compute in Hm. discriminate.
+      * destruct (str_eqb [110;46;116;120;116] m) eqn:Ec; [|reflexivity].
+        apply str_eqb_true in Ec. subst m. vm_compute in Hm. discriminate.
+  - intro H. vm_compute in H. discriminate.
+Qed.
+
 Print Assumptions C17_sanitize_plain.
 Print Assumptions C17_sanitize_plain_chars.
 Print Assumptions C17_sanitize_empty_only.
@@ -155,3 +228,8 @@ Print Assumptions C17_io_inventory_audited.
 Print Assumptions C17_third_party_imports_audited.
 Print Assumptions C17_suffix_constant.
 Print Assumptions C17_audited_sites_policy.
+Print Assumptions C17_read_noninterference.
+Print Assumptions C17_adaptive_confined.
+Print Assumptions C17_request_lists_are_programs.
+Print Assumptions C17_sanitize_characterisation.
+Print Assumptions C17_sanitize_idempotent.
